@@ -1388,8 +1388,11 @@ of [Stack] and/or [Stack] type alias instances.
 
 See also the [Stack.IsNesting] method.
 */
-func (r Stack) CanNest() bool {
-	return r.getState(nnest)
+func (r Stack) CanNest() (can bool) {
+	if r.IsInit() {
+		can = !r.getState(nnest)
+	}
+	return
 }
 
 /*
@@ -3073,9 +3076,12 @@ func (r *stack) implode(start, max int, spat []int) (tpat []int) {
 }
 
 func (r *stack) canPushNester(x any) (can bool) {
-	_, can = stackTypeAliasConverter(x)
-	if !r.positive(nnest) {
-		can = true
+	can = true
+	if r.positive(nnest) {
+		// no-nesting: only Stack and Stack
+		// alias values are turned away.
+		_, isStack := stackTypeAliasConverter(x)
+		can = !isStack
 	}
 	return
 }
